@@ -1,7 +1,8 @@
 (* Eval01.v — evaluation of C01 observations: what goderive and the Go type checker say about a
    type and a type-recursive plugin vs the model's support predicates. *)
 From Coq Require Import String.
-From Verif Require Import Base Sexp Go.Ty Go.Equal Go.Compare Go.CompareSpec Go.Hash Gen.Support.
+From Coq Require Import Ascii.
+From Verif Require Import Base Sexp Go.Ty Go.Equal Go.Compare Go.CompareSpec Go.Hash Gen.Support Gen.Worklist Gen.Imports.
 Open Scope string_scope.
 
 Definition plugin_sup (p : string) (t : ty) : option bool :=
@@ -13,7 +14,104 @@ Definition plugin_sup (p : string) (t : ty) : option bool :=
   else if String.eqb p "gostring" then Some (gs_sup t)
   else None.
 
+(* ---------- in-process observations of the work list and of the import table ---------- *)
+Definition nat_list (e : sexp) : option (list nat) := option_map (map Z.to_nat) (get_zs e).
+Definition req_table (e : sexp) : option (list (nat * list nat)) :=
+  match e with
+  | L l => map_opt (fun x => match x with
+                             | L [Num k; qs] => option_map (fun q => (Z.to_nat k, q)) (nat_list qs)
+                             | _ => None end) l
+  | _ => None
+  end.
+Fixpoint assoc (k : nat) (t : list (nat * list nat)) : list nat :=
+  match t with [] => [] | (k', v) :: t' => if Nat.eqb k k' then v else assoc k t' end.
+Definition nat_mem (k : nat) (l : list nat) : bool := existsb (Nat.eqb k) l.
+(* closure of init under the request table, by iteration (independent of the loop model) *)
+Fixpoint close (fuel : nat) (t : list (nat * list nat)) (acc : list nat) : list nat :=
+  match fuel with
+  | O => acc
+  | S f =>
+      let new := filter (fun q => negb (nat_mem q acc)) (flat_map (fun k => assoc k t) acc) in
+      match new with [] => acc | q :: _ => close f t (acc ++ [q])%list end
+  end.
+Fixpoint nat_nodup (l : list nat) : bool :=
+  match l with [] => true | a :: l' => (negb (nat_mem a l') && nat_nodup l')%bool end.
+Definition same_set (a b : list nat) : bool :=
+  (forallb (fun x => nat_mem x b) a && forallb (fun x => nat_mem x a) b)%bool.
+
+Definition str_of (e : sexp) : option string :=
+  option_map (fun l => fold_right (fun z s => String (ascii_of_N (Z.to_N z)) s) EmptyString l) (get_zs e).
+Definition call_of (e : sexp) : option (string * string * string) :=
+  match e with
+  | L [n; p; f] => match str_of n, str_of p, str_of f with
+                   | Some n', Some p', Some f' => Some (n', p', f') | _, _, _ => None end
+  | _ => None
+  end.
+Definition pair_of (e : sexp) : option (string * string) :=
+  match e with
+  | L [a; p] => match str_of a, str_of p with Some a', Some p' => Some (a', p') | _, _ => None end
+  | _ => None
+  end.
+Definition str_list_eqb (a b : list string) : bool :=
+  (Nat.eqb (List.length a) (List.length b) && forallb (fun p => String.eqb (fst p) (snd p)) (combine a b))%bool.
+Definition table_sub (a b : list (string * string)) : bool :=
+  forallb (fun x => existsb (fun y => (String.eqb (fst x) (fst y) && String.eqb (snd x) (snd y))%bool) b) a.
+
+Definition eval01_inproc (e : sexp) : option verdict :=
+  match e with
+  | L [Sym k; Num np; ini; reqs; Sym status; log] =>
+      if String.eqb k "worklist" then
+        match nat_list ini, req_table reqs, nat_list log with
+        | Some init, Some tab, Some lg =>
+            let plugins := seq 0 (Z.to_nat np) in
+            let m := loop nat Nat.eqb (fun k => assoc k tab) (fun k => Nat.div k 16) plugins 64
+                          (start nat Nat.eqb init) in
+            let expect := match m with Some s => Some (rev (generated nat s)) | None => None end in
+            let cl := close 256 tab (fold_left (fun acc k => if nat_mem k acc then acc else (acc ++ [k])%list) init []) in
+            Some {| v_known := true;
+                    v_model_ok := match expect with
+                                  | Some l => (String.eqb status "ok" && sexp_eqb (L (map (fun n => Num (Z.of_nat n)) l)) log)%bool
+                                  | None => false end;
+                    (* specification: every helper needed transitively, each exactly once *)
+                    v_spec_ok := (String.eqb status "ok" && nat_nodup lg && same_set lg cl)%bool;
+                    v_guard := true;
+                    v_model := match expect with Some l => L (map (fun n => Num (Z.of_nat n)) l) | None => Sym "out-of-fuel" end;
+                    v_tag := "worklist/" ++ (if Nat.ltb (List.length lg) 4 then "short" else if Nat.ltb (List.length lg) 12 then "medium" else "long") |}
+        | _, _, _ => None
+        end
+      else None
+  | L [Sym k; L calls; res] =>
+      if String.eqb k "imports" then
+        match map_opt call_of calls with
+        | Some cs =>
+            let m := run cs [] in
+            match res, m with
+            | Sym _, None => Some {| v_known := true; v_model_ok := true; v_spec_ok := true; v_guard := true;
+                                     v_model := Sym "crash"; v_tag := "imports/crash" |}
+            | L [Sym _; L als; L tab], Some (mas, mt) =>
+                match map_opt str_of als, map_opt pair_of tab with
+                | Some ras, Some rtab =>
+                    let ok := (str_list_eqb ras mas && table_sub rtab mt && table_sub mt rtab)%bool in
+                    Some {| v_known := true; v_model_ok := ok;
+                            (* specification: every returned alias is in the import block and denotes the requested path *)
+                            v_spec_ok := forallb (fun ac => existsb (fun y => (String.eqb (fst ac) (fst y)
+                                             && String.eqb (snd (fst (snd ac))) (snd y))%bool) rtab)
+                                           (combine ras cs);
+                            v_guard := true; v_model := Sym "ok";
+                            v_tag := "imports/" ++ (if Nat.ltb (List.length rtab) (List.length ras) then "aliases-reused" else "all-distinct") |}
+                | _, _ => None
+                end
+            | _, _ => Some {| v_known := true; v_model_ok := false; v_spec_ok := true; v_guard := true;
+                              v_model := match m with None => Sym "crash" | Some _ => Sym "ok" end; v_tag := "imports/mismatch" |}
+            end
+        | None => None
+        end
+      else None
+  | _ => None
+  end.
+
 Definition eval01 (e : sexp) : verdict :=
+  match eval01_inproc e with Some v => v | None =>
   match e with
   | L [Sym k; Sym p; tys; Sym cls; Num vet] =>
       if String.eqb k "gen" then
@@ -35,4 +133,5 @@ Definition eval01 (e : sexp) : verdict :=
         end
       else bad_line
   | _ => bad_line
+  end
   end.
